@@ -183,6 +183,8 @@ func main() {
 		cmdTTL(os.Args[2:])
 	case "bitmap":
 		cmdBitmap(os.Args[2:])
+	case "finding":
+		cmdFinding(os.Args[2:])
 	default:
 		fmt.Fprintln(os.Stderr, "unknown engine", os.Args[1])
 		os.Exit(2)
